@@ -159,6 +159,19 @@ def room_laws(ctx):
     """MEASURED on baked rooms: 0 <= F <= 1, zeros off the visible list, reciprocity, closure <= 2.5 %."""
     sp = common.import_repo()
     sides, p = scenes.gen_room_params(ctx.rng, small=True)
+    if ctx.rng.random() < 0.5:
+        # at least three patches along the longest side: the far wall's coordinate L and the
+        # neighbours' last grid line n*(L/n) then often differ in the last place
+        for _ in range(50):
+            sides = [float(x) for x in ctx.rng.uniform(1.6, 3.6, size=3)]
+            p = max(sides) / float(ctx.rng.uniform(3.05, 3.9))
+            q = np.array(sides) / p
+            if np.all(q >= 1.05) and np.all(np.abs(q - np.round(q)) >= 0.05):
+                n = np.floor(q).astype(int)
+                real = np.array(sides) / n
+                if 2 * (n[0] * n[1] + n[0] * n[2] + n[1] * n[2]) <= 40 and real.max() / real.min() < 1.95:
+                    break
+        ctx.count('rooms.three_patches_along_a_side')
     r = scenes.build_fast(sides, p)
     r.bake_geometry()
     ctx.oracle_evals += 1
